@@ -250,6 +250,8 @@ type Exec struct {
 	entry    *Heap
 	rec      *[]frameLoc // when set, store/havocLoc record the locations they write
 	implLockgen bool     // modifies lockstate(m) of a function with a body also covers lockgen(m)
+	curCall  *ssa.CallCommon // the call whose contract is being applied (for allfields())
+	curNames []string
 	params   map[string]CV
 	aborted  string
 	guards   []*guardInfo
@@ -996,6 +998,13 @@ func (ex *Exec) assumeTypedB(st *State, t Term, gt types.Type, bound int) {
 		if _, isAlloc := ex.w.addr[t.S]; !isAlloc && !strings.HasPrefix(t.S, "|new!") && !strings.HasPrefix(t.S, "new!") {
 			ex.assumeBorn(st, t, bound)
 		}
+		if pt, ok := gt.Underlying().(*types.Pointer); ok {
+			if at, ok := pt.Elem().Underlying().(*types.Array); ok && isByte(at.Elem()) && t.S != "nil" {
+				// a non-nil *[N]byte points to N bytes (type invariant)
+				bm := ex.w.heapGet(st.heap, "BM", ArraySort(SRef, SBytes))
+				st.assume(Implies(Not(Eq(t, TNil)), Eq(BLen(Select(bm, ex.bmKey(t))), IntLit(at.Len()))))
+			}
+		}
 		return
 	}
 	if _, ok := gt.Underlying().(*types.Slice); ok {
@@ -1077,7 +1086,9 @@ func (ex *Exec) load(st *State, h *Heap, addr Term, t types.Type) Term {
 	}
 	a := w.addr[addr.S]
 	if a == nil || a.Kind == "struct" || a.Kind == "global" {
-		if a != nil && a.Kind == "global" && w.globalsRO[a.G] {
+		if a != nil && a.Kind == "global" && w.globalsRO[a.G] && !isByteArray(t) {
+			// (a byte-array global is read through its address by callees: keep the one
+			// representation BM[address], or contract and code would speak of different things)
 			return ex.roGlobalVal(a.G)
 		}
 		n, s := w.CellArray(t)
